@@ -3,6 +3,12 @@
 # the scratch worktree /tmp/wt-seed (git -C /repo worktree add --detach /tmp/wt-seed HEAD) and the harness copies
 # /tmp/mcseed0 (= committed /verif/mc) and /tmp/mcseed (= development copy), whose rs-matter dependency points into
 # that worktree, are rebuilt and run with MC_OUT_DIR set, so nothing under /verif/evidence or /verif/replays changes.
+# Set-up (once per session; removed again at its end):
+#   git -C /repo worktree add --detach /tmp/wt-seed HEAD
+#   rsync -a --exclude target /verif/mc/ /tmp/mcseed/
+#   sed -i 's|path = "/repo/rs-matter"|path = "/tmp/wt-seed/rs-matter"|' /tmp/mcseed/Cargo.toml
+#   sed -i 's|/verif/mc/target|/tmp/mcseed/target|' /tmp/mcseed/.cargo/config.toml   # (else it builds into /verif/mc/target)
+#   after editing /verif/mc/src: rsync -a --exclude target /verif/mc/src/ /tmp/mcseed/src/
 s=$1; tier=${2:-quick}; prop=${s%%-*}
 cd /tmp/wt-seed || exit 2
 git checkout -q -- . && git clean -fdq rs-matter rs-matter-macros
